@@ -2,112 +2,37 @@
 Spec: spec/local/LocalChannel.tla.  Binding: every edge of the bounded model replayed on the real
 Sender/Receiver (expected results from the edge labels), the recorded traces validated by TLC against
 LocalChannelTrace (strict), plus seeded random longer sequences judged by TLC alone."""
-import json
-import os
-
 import vlib
 
 MOD = "local/LocalChannel.tla"
 TMOD = "local/LocalChannelTrace.tla"
-NEGS = {"CloseEndsStream": ["C16_Steps", "action_property", "C16_ParkedIsWoken"], "CloseWakes": ["C16_ParkedIsWoken"],
-        "SendWakes": ["C16_ParkedIsWoken"], "LastDropWakes": ["C16_ParkedIsWoken"],
-        "PollFifo": ["C16_Fifo", "C16_Steps", "action_property"]}
+NEGS = {"NEG_C16_CloseEndsStream.cfg": ["C16_Steps", "C16_ParkedIsWoken"],
+        "NEG_C16_CloseWakes.cfg": ["C16_ParkedIsWoken"],
+        "NEG_C16_SendWakes.cfg": ["C16_ParkedIsWoken"],
+        "NEG_C16_LastDropWakes.cfg": ["C16_ParkedIsWoken"],
+        "NEG_C16_PollFifo.cfg": ["C16_Fifo", "C16_Steps"]}
 
 
 def signature(rec):
-    """Classifies a failing observation for known-findings matching."""
-    ev = rec.get("ev")
-    return "chan:%s:%s" % (ev, rec.get("res", ""))
+    return "chan:%s:%s" % (rec.get("ev"), str(rec.get("res", ""))[:12])
 
 
 def run(ctx):
     vlib.cargo_build(["vlocal"])
-    cfg = "MC_C16_quick.cfg" if ctx.quick else "MC_C16_thorough.cfg"
-    dump = os.path.join(ctx.workdir, "mc.out")
-    res = ctx.model_check(MOD, cfg, workers=1, keep=dump)
-    vlib.require_ok(res, cfg)
-    ctx.add_tlc(cfg, res, "exhaustive, design variants, edge dump")
-    for v, exp in NEGS.items():
-        ctx.expect_neg(MOD, "NEG_C16_%s.cfg" % v, exp)
-    g = vlib.graph_from_tlc(res.stdout)
-    paths, covered, total = vlib.path_cover(g, ctx.rng)
-    scheds = vlib.paths_to_schedules(g, paths)
-    sfile = os.path.join(ctx.workdir, "schedules.ndjson")
-    vlib.write_ndjson(sfile, scheds)
-    tfile = os.path.join(ctx.workdir, "trace.ndjson")
     nrand = 200 if ctx.quick else 3000
-    r = vlib.run_harness("vlocal", ["chan", "--schedules", sfile, "--trace", tfile,
-                                    "--random", nrand, "--len", 40 if ctx.quick else 120, "--seed", ctx.seed])
-    summ = json.loads(r.stdout.strip().splitlines()[-1])
-    runs = vlib.split_runs(vlib.read_ndjson(tfile))
-    rand_runs, sched_runs = runs[:nrand], runs[nrand:]
-    assert len(sched_runs) == len(scheds)
-    # runs the driver flagged (observed result differs from the edge label) are always given to TLC;
-    # of the others a seeded sample up to an event budget, plus all random runs
-    flagged = sorted({m["run"] for m in summ["first_mismatches"]})
-    budget = 15000 if ctx.quick else 150000
-    pick, ev = [], 0
-    order = list(range(len(sched_runs)))
-    ctx.rng.shuffle(order)
-    for i in order:
-        if i in flagged:
-            continue
-        if ev + len(sched_runs[i]) > budget:
-            break
-        pick.append(i)
-        ev += len(sched_runs[i])
-    to_check = [("sched", i) for i in flagged[:10]] + [("sched", i) for i in pick] + \
-               [("rand", i) for i in range(len(rand_runs))]
-    rr = [sched_runs[i] if k == "sched" else rand_runs[i] for k, i in to_check]
-    accepted, rejects = vlib.validate_runs(TMOD, "Trace_C16.cfg", rr, ctx.workdir, tag="c16")
-    ctx.cov["traces_validated_against_impl"] = accepted
-    for (ri, pos, pred) in rejects:
-        kind, idx = to_check[ri]
-        rec = rr[ri][min(pos, len(rr[ri]) - 1)]
-        ctx.violation(signature(rec),
-                      "TLC rejects the recorded trace at record %d (%s): observed %s%s" % (
-                          pos, kind, json.dumps(rec), (", predicate " + pred) if pred else ""),
-                      {"kind": kind, "schedule": scheds[idx] if kind == "sched" else None, "trace": rr[ri]})
-    # a flagged run that TLC was not asked about (more than 10) is still a disagreement with the spec's
-    # only allowed result (API-level spec): report from the driver's comparison
-    for m in summ["first_mismatches"]:
-        if m["run"] not in flagged[:10]:
-            ctx.violation(signature(m["observed"]), "observed %s, spec allows %s" % (
-                json.dumps(m["observed"]), json.dumps(m["expected"])), {"schedule": scheds[m["run"]]})
-    if summ["mismatches"] and not rejects and not ctx.known_hits:
-        raise vlib.ToolError("driver flagged %d runs but TLC accepted them: oracle disagreement" % summ["mismatches"])
-    nontrivial = sum(1 for s in scheds if any(a["op"] == "poll" and a["res"] == "pending" for a in s)
-                     and any(a["woken"] != 0 for a in s))
-    ctx.cov.update({
-        "evaluations": len(scheds) + len(rand_runs),
-        "distinct_nontrivial": nontrivial,
-        "rule": "schedules = init-rooted paths covering every edge of the TLC state graph of %s (each edge = one "
-                "channel operation with the spec's result); non-trivial = the receiver parks and a later operation "
-                "must wake it; plus %d seeded random sequences judged by TLC only" % (cfg, len(rand_runs)),
-        "exhaustive": True,
-        "model_edges": total, "model_edges_replayed_on_impl": covered,
-        "driver_mismatches": summ["mismatches"], "impl_steps": summ["steps"],
-        "samples": [{"schedule": scheds[0]}, {"observed_trace": sched_runs[0]},
-                    {"random_trace": rand_runs[0][:12]}],
-    })
+    out = vlib.edge_replay_flow(
+        ctx, module=MOD, cfg="MC_C16_quick.cfg" if ctx.quick else "MC_C16_thorough.cfg", negs=NEGS,
+        tmodule=TMOD, tcfg="Trace_C16.cfg", harness="vlocal", mode="chan", signature=signature,
+        extra_args=["--random", nrand, "--len", 40 if ctx.quick else 120, "--seed", ctx.seed], extra_runs=nrand,
+        nontrivial=lambda s: any(a["op"] == "poll" and a["res"] == "pending" for a in s) and any(a["woken"] != 0 for a in s))
+    ctx.cov["rule"] = ("schedules = init-rooted paths covering every edge of the TLC state graph of LocalChannel "
+                       "(each edge = one channel operation with the spec's result); non-trivial = the receiver parks "
+                       "and a later operation must wake it; plus %d seeded random sequences judged by TLC only" % nrand)
+    ctx.cov["samples"].append({"random_trace": out["rand_runs"][0][:12]})
     ctx.assumptions += ["counting wakers observe wake-ups; extra wake-ups are allowed by the spec",
                         "messages are 1,2,3,.. in send order, so FIFO/exactly-once is visible in values"]
 
 
 def replay(ctx, path):
     vlib.cargo_build(["vlocal"])
-    rp = json.load(open(path))["replay"]
-    sfile = os.path.join(ctx.workdir, "replay-sched.ndjson")
-    tfile = os.path.join(ctx.workdir, "replay-trace.ndjson")
-    if rp.get("schedule"):
-        vlib.write_ndjson(sfile, [rp["schedule"]])
-        vlib.run_harness("vlocal", ["chan", "--schedules", sfile, "--trace", tfile])
-        runs = vlib.split_runs(vlib.read_ndjson(tfile))
-    else:
-        runs = [rp["trace"]]
-    accepted, rejects = vlib.validate_runs(TMOD, "Trace_C16.cfg", runs, ctx.workdir, tag="c16r")
-    ctx.cov.update({"evaluations": 1, "distinct_nontrivial": 1, "states": 1, "transitions": 1,
-                    "traces_validated_against_impl": accepted})
-    for (ri, pos, pred) in rejects:
-        rec = runs[ri][min(pos, len(runs[ri]) - 1)]
-        ctx.violation(signature(rec), "replay rejected at record %d: %s" % (pos, json.dumps(rec)), rp)
+    vlib.replay_flow(ctx, path, harness="vlocal", tmodule_by_mode={"chan": (TMOD, "Trace_C16.cfg")}, signature=signature)
